@@ -126,6 +126,28 @@ def drive(mod, tier, seed):
             chosen.append(t)
             if len(chosen) >= K:
                 break
+        # the same eventful transitions as one batch under vmap (lane j must equal the jitted single call)
+        if len(chosen) >= 2:
+            from harness.lib.treecmp import slice_tree
+
+            try:
+                bs = jax.tree_util.tree_map(lambda *xs: jnp.stack(xs), *[t[4] for t in chosen])
+                ba = jnp.stack([t[5] for t in chosen])
+                for t in chosen:
+                    call(name, "step", "jit", jstep, (t[4], t[5]), note="eventful transition (reference for the vmap lanes)")
+                vs, vt = jax.jit(jax.vmap(env.step))(bs, ba)
+                for lane, t in enumerate(chosen):
+                    seq[0] += 1
+                    d = jsonify.digest(to_np((t[4], t[5])))
+                    res = to_np((slice_tree(vs, lane), slice_tree(vt, lane)))
+                    evs.append({"k": "call", "env": name, "fn": "step", "mode": f"vmap{len(chosen)}", "seq": seq[0], "args_d": d,
+                                "args_after_d": d, "outcome": "ok", "note": f"eventful transition, lane {lane}", "detail": "",
+                                "cls": memo.cls("step", d, res), "result_d": jsonify.digest(res)})
+            except Exception as e:  # noqa: BLE001
+                seq[0] += 1
+                evs.append({"k": "call", "env": name, "fn": "step", "mode": "vmap", "seq": seq[0], "args_d": "x", "args_after_d": "x",
+                            "outcome": "raise:" + type(e).__name__, "note": "vmap over the eventful transitions",
+                            "detail": str(e)[:200], "cls": -1, "result_d": "none"})
         for (score, ch, last, rewarded, s, a) in chosen:
             note = f"eventful transition: changed {len(ch)} leaves{', rewarded' if rewarded else ''}{', LAST' if last else ''}"
             call(name, "step", "jit", jstep, (s, a), note=note)
